@@ -177,6 +177,14 @@ def main():
             import traceback
             crashes.append({'kind': 'harness-crash', 'stage': 'in-Coq-sample',
                             'traceback': traceback.format_exc()[-1200:]})
+    try:
+        rx = corr.in_coq_x_sample(prop)
+        if rx is not None:
+            corr_results.append(rx)
+    except BaseException:      # noqa
+        import traceback
+        crashes.append({'kind': 'harness-crash', 'stage': 'in-Coq-sample-X',
+                        'traceback': traceback.format_exc()[-1200:]})
     # 4. direct oracle on the implementation
     oracle = None
     for m in oracle_mods:
